@@ -465,6 +465,9 @@ def answer_ok(kind, n, val, partial=False):
         return False
 
 
+_PRISTINE_LEFT = [6]
+
+
 def pristine_case(ctx, case, h0, partial_ok=False):
     """An interface call made in this (long-lived) process failed. If the same call fails when it is the
     first thing a pristine process image does, the recorded case reproduces as it is. Otherwise the
@@ -472,8 +475,9 @@ def pristine_case(ctx, case, h0, partial_ok=False):
     which it fails from a pristine image and turn the case into that session, so that the replay is
     self-contained."""
     calls_made = _IFACE_HISTORY[h0:]
-    if not calls_made:
+    if not calls_made or _PRISTINE_LEFT[0] <= 0:
         return case
+    _PRISTINE_LEFT[0] -= 1          # a tree on which much fails: the first few cases get the treatment
     last = dict(calls_made[-1], partial_ok=partial_ok)
     zyg = zygote(ctx)
 
